@@ -466,6 +466,16 @@ fn lua_case(out: &mut Out, gen: &mut Gen) {
         prog.insert(at, (json!({"op": "OTHER"}), o.iter().map(|x| b(x)).collect()));
     }
     let ncmd = prog.len();
+    // a call the scripting layer refuses before any command is built (a command that may not run from a script, an argument that
+    // is not a string or a number, no argument at all), caught by the script: it is no command, so the direct twin has nothing to
+    // run for it - and it must leave nothing behind for the calls that follow it in the same script
+    let refused: Option<(usize, &str)> = if gen.rng.gen_range(0..3) == 0 {
+        let texts = ["pcall(redis.call, 'MULTI') ", "redis.pcall('EXEC') ", "pcall(redis.call, 'RPUSH', 'x', {}) ",
+                     "pcall(redis.call) ", "redis.pcall('WATCH', 'x') ", "redis.pcall('SUBSCRIBE', 'c') "];
+        Some((gen.rng.gen_range(0..prog.len()), texts[gen.rng.gen_range(0..texts.len())]))
+    } else {
+        None
+    };
     let j = |r: &Result<RespValue, String>| match r {
         Ok(v) => rv_json(v),
         Err(p) => json!({"t": "panic", "b": p.as_bytes(), "a": []}),
@@ -497,6 +507,11 @@ fn lua_case(out: &mut Out, gen: &mut Gen) {
             let lo = flat.len() + 1;
             flat.extend(argv.clone());
             let hi = flat.len();
+            if let Some((at, t)) = refused {
+                if at == i {
+                    text.push_str(t);
+                }
+            }
             if i + 1 == prog.len() {
                 text.push_str(&format!("return redis.{f}(table.unpack(ARGV, {lo}, {hi}))"));
             } else {
@@ -517,7 +532,7 @@ fn lua_case(out: &mut Out, gen: &mut Gen) {
     let first = dcall_state.unwrap_or_else(|| dstate.clone());
     let canon = |v: &Value| serde_json::to_string(v).unwrap_or_default();
     let last_name = prog.last().map(|(_, a)| String::from_utf8_lossy(&a[0]).to_uppercase()).unwrap_or_default();
-    out.emit(&json!({"t": "lua", "run": run, "ncmd": ncmd, "unordered": UNORDERED.contains(&last_name.as_str()),
+    out.emit(&json!({"t": "lua", "run": run, "ncmd": ncmd, "refused": refused.map(|(i, t)| json!([i, t])), "unordered": UNORDERED.contains(&last_name.as_str()),
                      "prog": prog.iter().map(|(_, argv)| argv.iter().map(|x| String::from_utf8_lossy(x).to_string()).collect::<Vec<_>>()).collect::<Vec<_>>(),
                      "prefix": prefix,
                      "direct": {"rs": direct, "sh": canon(&dstate), "sh_first_err": canon(&first), "s": dstate},
